@@ -78,8 +78,11 @@ CHECKS = {
                             "a fragment_len >= 80 that is smaller than the real fragments is not in the alphabet (recorded as an out-of-scope observation in DESIGN.md 9)",
                             "allocation failure is not injected", "Jerasure, SHSS and libphazr are not installed: their ids are exercised only up to the 'backend not available' refusal"]},
     "C14": {"runs": [{"name": "states", "plan": "states", "srcs": H, "san": "asan", "opts": {"quick": {"slots": 4}, "thorough": {"slots": 4}}, "only_sites": C14_SITES},
-                     {"name": "seq", "plan": "seq", "srcs": H, "san": "asan", "opts": {"quick": {"depth": 5}, "thorough": {"depth": 7}}, "only_sites": C14_SITES}],
-            "level": "model_checking", "deadline": {"quick": 150, "thorough": 1500}, "rule": RULE_H, "assumptions": ASSUME_H},
+                     {"name": "seq", "plan": "seq", "srcs": H, "san": "asan", "opts": {"quick": {"depth": 5}, "thorough": {"depth": 7}}, "only_sites": C14_SITES},
+                     {"name": "wrap", "plan": "wrap", "srcs": H, "san": "asan", "opts": {"quick": {"depth": 9}, "thorough": {"depth": 11}}, "only_sites": C14_SITES}],
+            "level": "model_checking", "deadline": {"quick": 150, "thorough": 1500},
+            "rule": RULE_H + "; plus (wrap) every sequence over {create flat_xor_hd, create null, destroy slot 0..3, counter := INT_MAX-1, counter := INT_MAX} up to the stated depth, unmerged, "
+                    "so that the wrapped descriptor counter meets every arrangement of <= 4 live descriptors", "assumptions": ASSUME_H},
     "C16": {"runs": [{"name": "states", "plan": "states", "srcs": H, "san": "asan", "opts": {"quick": {"slots": 3}, "thorough": {"slots": 4}}, "only_sites": C16_SITES},
                      {"name": "seq", "plan": "seq", "srcs": H, "san": "asan", "opts": {"quick": {"depth": 4}, "thorough": {"depth": 6}}, "only_sites": C16_SITES},
                      {"name": "c16s", "plan": "c16s", "srcs": S, "san": "asan"}],
